@@ -19,6 +19,7 @@
  Rm memo          : every memoisation construct in the functions behind this property is keyed by everything it reads.
  Rp presence      : optional numeric fields are tested with `is None` / membership, never by truthiness (0 is a value).
  Rn arg roles     : a variable named like a parameter of the callee is handed to that parameter (no exchanged roles).
+ R7 declared bands: a designed multi-band amplifier declares exactly the bands of the amplifiers it holds (unconditional overwrite).
 """
 import ast
 
@@ -418,6 +419,29 @@ def rn_arg_roles(ctx):
     ctx.check('Rn.arg-roles', 'argument / parameter name scan', True, 'C07|arg-roles-scan', '', f'{n} argument(s) named like another parameter judged')
 
 
+def r7_declared_bands(ctx):
+    """R7: after design, the bands a multi-band amplifier DECLARES (params.bands, read by the pre-propagation filter) are the bands
+    of the amplifiers it really holds: set_egress_amplifier overwrites params.bands with [a.params.bands[0] for a in
+    node.amplifiers.values()] on every successful design of a Multiband_amplifier, unconditionally"""
+    from ..pattern import find
+    repo = ctx.repo
+    f = repo.func('gnpy.core.network', 'set_egress_amplifier')
+    ftv = calls_to(f, {'find_type_variety'})
+    stores = [(n, b) for n, b in find('V_n.params.bands = V_b', f.node)]
+    s = site(f)
+    ok = len(ftv) == 1 and len(stores) == 1
+    if ok:
+        st, b = stores[0]
+        defs = [d for d in walk_no_nested(f.node) if isinstance(d, ast.Assign) and ast.unparse(d.targets[0]) == b['V_b']]
+        ok = len(defs) == 1 and bool(find(f"[V_a.params.bands[0] for V_a in {b['V_n']}.amplifiers.values()]", defs[0]))
+        # same block as the (possibly raising) type lookup: nothing but its failure can skip the overwrite
+        ok = ok and getattr(st, '_parent', None) is getattr(stmt_of(f, ftv[0]), '_parent', None) and st.lineno > ftv[0].lineno
+    ctx.check('R7.declared-bands', s, ok, key(f, 'declared-bands'),
+              'the declared bands of a designed multi-band amplifier are not unconditionally overwritten with the bands of its real '
+              'sub-amplifiers: the spectrum filter would keep carriers the element then drops (or drop carriers it could carry)')
+    ctx.need('R7.declared-bands', 1)
+
+
 from ..memo import rule_for as _memo_rule
 
 RULES_MEMO = ('Rm.memo', _memo_rule('C07', 'the band of another amplifier set would be used'))
@@ -428,4 +452,4 @@ from ..presence import rule_for as _presence_rule
 RULES_PRESENCE = ('Rp.presence', _presence_rule('C07', 'a legal zero would be read as missing'))
 
 RULES = [('R1.construction', r1_construction), ('R2.mux', r2_mux), ('R3.filter', r3_filter), ('R4.multiband', r4_multiband),
-         ('R5.carriers', r5_carriers), ('R6.in-band', r6_in_band), RULES_MEMO, RULES_PRESENCE, ('Rn.arg-roles', rn_arg_roles)]
+         ('R5.carriers', r5_carriers), ('R6.in-band', r6_in_band), RULES_MEMO, RULES_PRESENCE, ('Rn.arg-roles', rn_arg_roles), ('R7.declared-bands', r7_declared_bands)]
